@@ -28,7 +28,10 @@ class Scen(CompScenario):
             layout = StructLayout(dict(layout))
         self.fields = [n for n, _, _ in self.fdesc]
         self.is_in = c["comp"] == "in"
-        kw = dict(edge=bool(c["edge"]), polarity=bool(c["polarity"]), synchronize=bool(c["sync"]))
+        # the three settings are passed as bool or, in a share of the runs, as the plain integers 0 / 1 (what a
+        # configuration word or a numeric parameter hands over; the library documents truthiness, seeded change C30-5)
+        conv = int if c.get("arg_form", "bool") == "int" else bool
+        kw = dict(edge=conv(c["edge"]), polarity=conv(c["polarity"]), synchronize=conv(c["sync"]))
         # arguments left out: only ones whose value is the documented default (False) -- the model keeps using that value
         self.omitted = [a for a in c.get("omit", []) if not c[{"synchronize": "sync"}.get(a, a)]]
         for a in self.omitted:
@@ -124,6 +127,8 @@ class Scen(CompScenario):
                     self.hit("bits_above_12_transferred")
         if self.cfg.get("layout_form", "list") == "struct":
             self.hit("struct_layout_transferred")
+        if self.cfg.get("arg_form", "bool") == "int" and not self.cfg["polarity"] and "polarity" not in self.omitted:
+            self.hit("negative_polarity_given_as_int_0")
         for a in self.omitted:
             self.hit("called_with_default_" + a)
         if len(self.omitted) == 3:
@@ -218,7 +223,7 @@ class Prop(PropBase):
         "thorough": {"runs": 40000, "selftest_runs": 32},
     }
     rule = ("one run = one component (InputSampler / OutputBuffer) x (edge, polarity, synchronize; in half of the runs "
-            "arguments whose value is the documented default are not passed) x layout (one or two fields of 1-64 bits, "
+            "arguments whose value is the documented default are not passed; in 30 % the settings are given as the integers 0 / 1) x layout (one or two fields of 1-64 bits, "
             "unsigned or signed, given as a list or as a StructLayout), driven "
             "for 40-160 cycles by a seeded phase plan for the trigger (random(p) / held high / held low / toggling / "
             "single-cycle pulses; cycle-0 value part of the configuration) and a request pattern (always / random / "
@@ -228,7 +233,7 @@ class Prop(PropBase):
                     "edge_mode_level_held_requested", "edge_seen", "sync_trigger_differs_from_raw",
                     "sync_data_differs_from_current", "get_called", "put_called", "back_to_back_puts",
                     "output_held_without_put", "active_not_requested", "called_with_default_edge",
-                    "called_with_default_polarity", "called_with_default_synchronize", "called_with_all_defaults",
+                    "called_with_default_polarity", "called_with_default_synchronize", "called_with_all_defaults", "negative_polarity_given_as_int_0",
                     "struct_layout_transferred", "signed_field_transferred", "negative_value_transferred",
                     "wide_field_transferred", "bits_above_12_transferred"] + _CFG_KEYS
     real = ["transactron.lib.basicio.InputSampler", "transactron.lib.basicio.OutputBuffer",
@@ -258,6 +263,7 @@ class Prop(PropBase):
         r = rng.random()
         cfg["omit"] = args if r < 0.25 else [a for a in args if rng.random() < 0.5] if r < 0.5 else []
         cfg["layout_form"] = "struct" if rng.random() < 0.35 else "list"
+        cfg["arg_form"] = "int" if rng.random() < 0.3 else "bool"
         return cfg
 
     def make(self, cfg):
@@ -266,6 +272,7 @@ class Prop(PropBase):
     def features(self, cfg, viol):
         return {"comp": cfg["comp"], "edge": cfg["edge"], "polarity": cfg["polarity"], "sync": cfg["sync"],
                 "omit": sorted(cfg.get("omit", [])), "layout_form": cfg.get("layout_form", "list"),
+                "arg_form": cfg.get("arg_form", "bool"),
                 "signed": any(len(e) > 2 and e[2] for e in cfg["layout"]), "wide": any(e[1] > 12 for e in cfg["layout"])}
 
     def violation_class(self, feats):
@@ -273,7 +280,7 @@ class Prop(PropBase):
 
     def cfg_signature(self, cfg):
         return [cfg["comp"], cfg["edge"], cfg["polarity"], cfg["sync"], cfg["layout"], cfg["trig0"], cfg["en_mode"],
-                cfg["sched"], sorted(cfg.get("omit", [])), cfg.get("layout_form", "list")]
+                cfg["sched"], sorted(cfg.get("omit", [])), cfg.get("layout_form", "list"), cfg.get("arg_form", "bool")]
 
     def shrink_cfg(self, cfg):
         if len(cfg["layout"]) > 1:
